@@ -638,7 +638,39 @@ def _max_depth_clauses():
         inside = p.events[p.events.index([e for e in p.events if e.startswith("for[")][0]) + 1:] if any(e.startswith("for[") for e in p.events) else ()
         return not any(e in ("collect", "report") or e.startswith("max(") for e in inside)
 
+    def guard_is_the_documented_one(p):
+        """the skip test of the operation_name filter is equivalent to: a filter is set and the operation is not the one it names"""
+        import ast as _ast
+        import itertools as _it
+        tests = [t for t, _o in p.facts if "operation_name" in t]
+        if not tests:
+            return None
+        tree = _ast.parse(tests[0], mode="eval").body
+
+        def ev(n, env):
+            if isinstance(n, _ast.BoolOp):
+                vals = [ev(v, env) for v in n.values]
+                return all(vals) if isinstance(n.op, _ast.And) else any(vals)
+            if isinstance(n, _ast.UnaryOp) and isinstance(n.op, _ast.Not):
+                return not ev(n.operand, env)
+            text = _ast.unparse(n).replace(" ", "")
+            table = {"self.operation_name": env["F"], "op.name": env["N"], "op.name.value==self.operation_name": env["N"] and env["E"],
+                     "self.operation_name==op.name.value": env["N"] and env["E"], "op.name.value!=self.operation_name": not (env["N"] and env["E"]) if env["N"] else True,
+                     "self.operation_name!=op.name.value": not (env["N"] and env["E"]) if env["N"] else True,
+                     "op.nameisNone": not env["N"], "op.nameisnotNone": env["N"], "self.operation_nameisNone": not env["F"], "self.operation_nameisnotNone": env["F"]}
+            if text not in table:
+                raise T.Unsupported("atom %r of the operation_name guard not recognised" % text)
+            return table[text]
+        for F, N, E in _it.product((False, True), repeat=3):
+            # Python evaluates `op.name.value` only when op.name is truthy in every accepted form; an anonymous operation has no name to compare
+            want = F and not (N and E)
+            if bool(ev(tree, {"F": F, "N": N, "E": E})) != want:
+                return False
+        return True
+
     return [
+        ("operation-name-guard-is-the-documented-one", "an operation is skipped exactly when a filter is set and the operation is not the named one "
+                                                       "(an anonymous operation never matches a filter)", guard_is_the_documented_one),
         ("flat-operations-have-depth-zero", "the maximum over the selected paths has a default, so an operation without nested fields does not raise", no_empty_max),
         ("reports-exactly-the-deeper-operations", "an operation is reported exactly when its depth exceeds the (inclusive) limit", reports_iff_deeper),
         ("error-names-the-operation", "each reported error carries the operation node", error_names_the_operation),
@@ -695,6 +727,160 @@ def _handle_label(call, args, kwargs):
     return "handle:%s" % (v.text if isinstance(v, Unknown) else ("None" if isinstance(v, T.Const) and v.value is None else "?"))
 
 
+def _coercion_error(p):
+    from py_gql.exc import CoercionError
+    return p.outcome == "raise" and exc_is(p.payload, CoercionError)
+
+
+def _explicit(p):
+    return p.outcome == "raise" and not any("raises" in t for t in p.trail)
+
+
+def _coerce_value_clauses():
+    NN = "isinstance(type_, NonNullType)"
+
+    def null_for_non_null(p):
+        if p.assumed(NN) is True and p.assumed("value is None") is True and len([1 for t, _o in p.facts if t == "value is None"]) >= 1:
+            first = [o for t, o in p.facts if t == "value is None"][0]
+            if first is True:
+                return _coercion_error(p) and p.events == ()
+        return None
+
+    def null_is_null(p):
+        facts = [o for t, o in p.facts if t == "value is None"]
+        if facts and facts[-1] is True and p.outcome == "return":
+            return p.events == () and isinstance(p.payload, T.Const) and p.payload.value is None
+        return None
+
+    def scalar(p):
+        if p.assumed("isinstance(type_, ScalarType)") is True:
+            if p.outcome == "return":
+                return p.events == ("parse",)
+            if any(t.endswith(".caught") for t in p.trail):
+                return _coercion_error(p)
+        return None
+
+    def enum(p):
+        if p.assumed("isinstance(type_, EnumType)") is True:
+            if p.assumed("isinstance(value, str)") is False:
+                return _coercion_error(p) and p.events == ()
+            if p.outcome == "return":
+                return p.events == ("get_value",)
+            if any(t.endswith(".caught") for t in p.trail):
+                return _coercion_error(p)
+        return None
+
+    def delegates(p):
+        if p.assumed("isinstance(type_, ListType)") is True and p.outcome == "return":
+            return p.events == ("coerce_list",)
+        if p.assumed("isinstance(type_, InputObjectType)") is True and p.outcome == "return":
+            return p.events == ("coerce_object",)
+        return None
+
+    return [
+        ("null-rejected-for-non-null", "null for a non-null type is rejected with a coercion error before anything is parsed", null_for_non_null),
+        ("null-accepted-for-nullable", "null for a nullable type is null, without parsing", null_is_null),
+        ("scalar-parsed-once", "a scalar value is parsed exactly once; a parsing error becomes a coercion error", scalar),
+        ("enum-by-name-only", "an enum value must be a string naming a value: looked up once, anything else is a coercion error", enum),
+        ("lists-and-objects-delegated", "list and input-object types are delegated to their own coercion, once", delegates),
+        ("only-coercion-errors-raised-here", "coerce_value itself raises nothing but coercion errors", lambda p: _coercion_error(p) if _explicit(p) else None),
+    ]
+
+
+def _coerce_list_clauses():
+    def single_wrapped(p):
+        if p.assumed("isinstance(value, (list, tuple))") is False and p.outcome == "return":
+            return p.events == ("coerce(path+[0])",) and isinstance(p.payload, Unknown) and p.payload.text.startswith("[")
+        return None
+
+    def per_item(p):
+        if not any(e.startswith("for[") for e in p.events) or "}!" in p.events:
+            return None
+        i = p.events.index([e for e in p.events if e.startswith("for[")][0])
+        body = p.events[i + 1:p.events.index("}", i)]
+        return body in (("coerce(path+[index])", "append:coerced"), ("coerce(path+[index])", "append:errors"), ("coerce(path+[index])", "for[err.errors]{", "append:errors"),
+                        ("coerce(path+[index])",)) or (body[:1] == ("coerce(path+[index])",) and all(e in ("append:errors", "for[err.errors]{", "}") for e in body[1:]))
+
+    def errors_win(p):
+        if p.assumed("isinstance(value, (list, tuple))") is not True:
+            return None
+        many, one = p.assumed("len(errors) > 1"), p.assumed("len(errors) == 1")
+        if many is True:
+            return p.outcome == "raise"
+        if one is True:
+            return p.outcome == "raise"
+        if many is False and one is False:
+            return p.outcome == "return" and isinstance(p.payload, Unknown)
+        return None
+
+    return [
+        ("single-value-becomes-a-one-item-list", "a value that is not a list is coerced as the single item of a list (path index 0)", single_wrapped),
+        ("each-item-coerced-once-in-order", "every item is coerced once against the item type under its index; its value or its error(s) are recorded", per_item),
+        ("any-item-error-fails-the-list", "with one or more item errors the list is rejected (all errors reported); otherwise the coerced items are returned", errors_win),
+    ]
+
+
+def _coerce_object_clauses():
+    def not_an_object(p):
+        if p.assumed("not isinstance(value, dict)") is True:
+            return _coercion_error(p) and p.events == ()
+        return None
+
+    def field_rules(p):
+        # inside the abstract iteration over the declared fields
+        if not any(e.startswith("for[type_.fields]") for e in p.events) or "}!" in p.events:
+            return None
+        i = p.events.index([e for e in p.events if e.startswith("for[type_.fields]")][0])
+        body = tuple(p.events[i + 1:p.events.index("}", i)])
+        absent = p.assumed("field_name not in value")
+        if absent is True:
+            if p.assumed("field.has_default_value") is True:
+                return body == ("store:field.python_name=default",)
+            if p.assumed("isinstance(field.type, NonNullType)") is True:
+                return body == ("error", "append:errors")
+            return body == ()
+        if absent is False:
+            return body[:1] == ("coerce(value[field_name],field.type)",) and (body[1:] == ("store:field.python_name=coerced",) or all(
+                e in ("append:errors", "for[err.errors]{", "}") for e in body[1:]))
+        return None
+
+    def unknown_fields(p):
+        if p.assumed("fieldname not in type_.field_map") is True:
+            return _coercion_error(p)
+        return None
+
+    def errors_win(p):
+        many, one = p.assumed("len(errors) > 1"), p.assumed("len(errors) == 1")
+        if many is True or one is True:
+            return p.outcome == "raise"
+        return None
+
+    return [
+        ("non-object-rejected", "a value that is not an object is rejected", not_an_object),
+        ("field-rules", "per declared field: absent with default -> the default under the python name; absent and required -> an error; absent optional -> omitted; "
+                        "present -> coerced against the field type and stored under the python name", field_rules),
+        ("unknown-fields-rejected", "a field the type does not define is rejected", unknown_fields),
+        ("any-field-error-fails-the-object", "with one or more field errors the object is rejected", errors_win),
+        ("only-coercion-errors-raised-here", "nothing but coercion errors is raised here", lambda p: (_coercion_error(p) or isinstance(p.payload, ExcV)) if _explicit(p) else None),
+    ]
+
+
+def _coerce_call_label(call, args, kwargs):
+    import ast
+    path = kwargs.get("path") if "path" in kwargs else (args[3] if len(args) > 3 else None)
+    ptxt = ast.unparse([k.value for k in call.keywords if k.arg == "path"][0]) if any(k.arg == "path" for k in call.keywords) else (
+        ast.unparse(call.args[3]) if len(call.args) > 3 else "?")
+    if ptxt.replace(" ", "") in ("path+[index]", "path+[0]"):
+        return "coerce(%s)" % ptxt.replace(" ", "")
+    return "coerce(%s,%s)" % (ast.unparse(call.args[0]).replace(" ", ""), ast.unparse(call.args[1]).replace(" ", ""))
+
+
+def _store_label(m, av=None):
+    text = av.text if isinstance(av, Unknown) else ""
+    kind = "coerced" if text.startswith("coerce_value") else "default" if "default_value" in text else "?"
+    return "store:%s=%s" % (m.group(1), kind)
+
+
 TRACE_CONTRACTS = [
     dict(id="BlockingExecutor.resolve_field", target="py_gql.execution.blocking_executor:BlockingExecutor.resolve_field", props=["C16"],
          config=Config(events=FIELD_EVENTS, nothrow=FIELD_NOTHROW), clauses=FIELD_CLAUSES,
@@ -749,6 +935,25 @@ TRACE_CONTRACTS = [
     dict(id="_collect_definitions", target="py_gql.sdl.schema_from_ast:_collect_definitions", props=["C11"],
          config=Config(stmt_events=[(r"^types\[name\]$", "store:types"), (r"^directives\[name\]$", "store:directives")], nothrow=[r"^SDLError$"]),
          clauses=_collect_definitions_clauses(), assumes=[]),
+    dict(id="coerce_value", target="py_gql.utilities.coerce_value:coerce_value", props=["C07"],
+         config=Config(events=[(r"type_\.parse$", "parse"), (r"type_\.get_value$", "get_value"), (r"^_coerce_list_value$", "coerce_list"),
+                               (r"^_coerce_input_object$", "coerce_object")],
+                       nothrow=[r"^_path$", r"^CoercionError$", r"^str$"],
+                       raises=[(r"type_\.parse$", [__import__("py_gql.exc", fromlist=["ScalarParsingError"]).ScalarParsingError]),
+                               (r"type_\.get_value$", [__import__("py_gql.exc", fromlist=["UnknownEnumValue"]).UnknownEnumValue])]),
+         clauses=_coerce_value_clauses(),
+         assumes=["scalar parse functions raise only ScalarParsingError and get_value only UnknownEnumValue (custom scalars raising anything else fail the request)"]),
+    dict(id="_coerce_list_value", target="py_gql.utilities.coerce_value:_coerce_list_value", props=["C07"],
+         config=Config(events=[(r"^coerce_value$", _coerce_call_label), (r"^coerced\.append$", "append:coerced"), (r"^errors\.append$", "append:errors")],
+                       nothrow=[r"\.append$", r"^MultiCoercionError$", r"^enumerate$"],
+                       raises=[(r"^coerce_value$", [__import__("py_gql.exc", fromlist=["CoercionError"]).CoercionError, __import__("py_gql.exc", fromlist=["MultiCoercionError"]).MultiCoercionError])]),
+         clauses=_coerce_list_clauses(), assumes=["coerce_value raises only coercion errors (its own contract)"]),
+    dict(id="_coerce_input_object", target="py_gql.utilities.coerce_value:_coerce_input_object", props=["C07"],
+         config=Config(events=[(r"^coerce_value$", _coerce_call_label), (r"^errors\.append$", "append:errors"), (r"^CoercionError$", "error")],
+                       stmt_events=[(r"^coerced\[(field\.python_name)\]$", _store_label)],
+                       nothrow=[r"\.append$", r"^MultiCoercionError$", r"^CoercionError$", r"^_path$", r"\.keys$"],
+                       raises=[(r"^coerce_value$", [__import__("py_gql.exc", fromlist=["CoercionError"]).CoercionError, __import__("py_gql.exc", fromlist=["MultiCoercionError"]).MultiCoercionError])]),
+         clauses=_coerce_object_clauses(), assumes=["coerce_value raises only coercion errors (its own contract)"]),
     dict(id="BlockingRuntime.map_value", target="py_gql.execution.runtime.blocking:BlockingRuntime.map_value", props=["C16", "C08"],
          config=Config(events=[(r"^then$", "then"), (r"^else_\[1\]$", "else")]),
          clauses=[("then-exactly-once-first", "`then` is invoked exactly once, first", lambda p: count(p.events, "then") == 1 and p.events[0] == "then"),
